@@ -81,6 +81,7 @@ Definition handle_ok (hd : handle) : assertion := fun tg h =>
   match hd with
   | HNode r => fref tg h r
   | HSlice s => bslice_ok tg h s
+  | HReader x => rdr_at x tg h
   | _ => True
   end.
 
@@ -668,6 +669,35 @@ Proof.
     destruct n; try apply triple_crash.
     eapply triple_conseq; [apply (t_match_subset cf r from to) | | intros o tg hp _ H _; exact H].
     intros tg hp HI [Hop Hl]. cbn in Hop. inversion Hop; subst. assumption.
+  - (* AsLargeBytes *)
+    destruct n; try apply triple_crash. destruct r; try apply triple_crash;
+      try (apply triple_ret; intros tg hp _ _; exact I).
+    + (* plainBytes: a fresh bytes.Reader *)
+      intros tg h ar o h' HI [Hop Hl] He. cbn in Hop. inversion Hop as [|? ? H1 _]; subst.
+      eapply new_frozen_then; eauto; [exact H1|].
+      intros y tg4 h4 S4 Ty Gy He4. cbv beta in He4. rewrite exec_ret in He4. inversion He4; subst.
+      exists tg4. split; [apply step_refl; exact (proj1 S4)|]. intros _. cbn. split; eauto.
+    + (* streamBytes *)
+      destruct (cf_stream_shared cf).
+      * apply triple_ret. intros tg hp [Hop Hl] _. cbn in Hop. inversion Hop; subst. assumption.
+      * intros tg h ar o h' HI [Hop Hl] He. cbn in Hop. inversion Hop as [|? ? H1 _]; subst.
+        eapply new_frozen_then; eauto; [exact H1|].
+        intros y tg4 h4 S4 Ty Gy He4. cbv beta in He4. rewrite exec_ret in He4. inversion He4; subst.
+        exists tg4. split; [apply step_refl; exact (proj1 S4)|]. intros _. cbn. split; eauto.
+  - (* reader Read *)
+    apply triple_post_any; [|intros a tg hh F; discriminate F].
+    destruct r; try apply triple_crash.
+    eapply triple_bind with (Q1 := tt_post).
+    + eapply triple_conseq; [apply (t_rd_read rd_fuel a k) | | auto].
+      intros tg hp HI [Hop Hl]. cbn in Hop. inversion Hop; subst. assumption.
+    + intros bs. apply triple_ret. intros; exact I.
+  - (* reader Seek *)
+    apply triple_post_any; [|intros a tg hh F; discriminate F].
+    destruct r; try apply triple_crash.
+    eapply triple_bind with (Q1 := tt_post).
+    + eapply triple_conseq; [apply (t_rd_seekw rd_fuel a off wh) | | auto].
+      intros tg hp HI [Hop Hl]. cbn in Hop. inversion Hop; subst. assumption.
+    + intros z. apply triple_ret. intros; exact I.
   - (* CallerWrite: never legal *)
     intros tg h ar o h' HI [_ Hl]. discriminate Hl.
 Qed.
